@@ -212,7 +212,8 @@ func (ex *Exec) loopArrive(fr *Frame, from, head *ssa.BasicBlock, li *loopInfo) 
 		}()
 		if ok {
 			for _, m := range mods {
-				ex.havocTarget(m.E, e, "loop")
+				// only what the loop body can actually write (discovered by the dry run) is forgotten
+				ex.havocTargets(ex.modTargets(m.E, e), "loop", ws.regions)
 			}
 		} else {
 			targeted = false
